@@ -4,7 +4,7 @@ import json, re, glob
 out=[]
 for f in sorted(glob.glob('/verif/evidence/C*.json')):
     e=json.load(open(f)); c=e['coverage']
-    out.append('**%s** — %d obligations, %d functions analysed' % (e['property_id'], c['obligations'], c.get('functions_analysed',0)))
+    out.append('**%s** — %d obligations, %d functions analysed' % (e['property_id'], c['obligations'], (len(c['functions_analysed']) if isinstance(c.get('functions_analysed'),list) else c.get('functions_analysed',0))))
     per=c.get('per_rule',{})
     for r,doc in sorted(c.get('rules',{}).items(), key=lambda kv: [int(x) if x.isdigit() else x for x in re.split(r'(\d+)', kv[0])]):
         n=per.get(r,[0])
